@@ -75,6 +75,20 @@ def ops(rng, tier, floats_only=False):
                 arr = lambda b: gen.head(4, len(b)) + b"".join(gen.head(0, x) for x in b)
                 exp = (b"\x83\x07" if more is not None else b"\x82\x07") + arr(data) + (arr(more) if more is not None else b"")
                 out.append(f"dextra BSlice 7 {gen.hexb(data)} {'N' if more is None else gen.hexb(more)} #X={exp.hex()} #D={exp.hex()}")
+        # #[b] and #[n] indices mixed in one array-encoded type: the array is as long as the highest non-nil index says, whichever letter carries it
+        for name, age, nick, karma in (("626f62", 42, "N", "7"), ("626f62", 42, "6e", "N"), ("626f62", 0, "N", "N"), ("-", 24, "6e6e", "70000"), ("c3a9", 255, "-", "0")):
+            out.append(f"dextra MixBN {name} {age} {nick} {karma}")
+        for name, age, flags in (("626f62", 42, "3"), ("626f62", 42, "N"), ("-", 0, "255")):
+            out.append(f"dextra MixE {name} {age} {flags}")
+        # items that are skipped (an unknown variant under an optional field, a bare null at a tagged optional field) in front of further fields,
+        # in definite and indefinite framing: the fields behind them keep their places
+        for doc, exp in (("84820981030962686982098" + "0", "N:9:6869:N@12"), ("9f8209810309626869820980ff", "N:9:6869:N@13"), ("838209810309626869", "N:9:6869:N@9"),
+                         ("9f8209810309626869ff", "N:9:6869:N@10"), ("9f82008009626869ff", "P:9:6869:N@10"), ("9f820181070962686982098105ff", "F7:9:6869:N@15"),
+                         ("9ff60962686982010" + "0ff", "err:type"), ("9f820980f609626869ff", "err:type")):
+            out.append(f"dextra SkipRead A {doc} #D={exp.split('@')[0] + ('@%d' % (len(doc) // 2) if '@' in exp else '')}")      # a whole document is consumed to its end
+        for doc, exp in (("9ff609ff", "N:9:N@4"), ("83f609f6", "N:9:N@4"), ("9ff609f6ff", "N:9:N@5"), ("9fc10509c206ff", "5:9:6@7"), ("83c10509c206", "5:9:6@6"),
+                         ("9ff609c206ff", "N:9:6@6"), ("9fc105f609ff", "err:type"), ("82f609", "N:9:N@3"), ("9ff6f609ff", "err:type")):
+            out.append(f"dextra SkipRead S {doc} #D={exp.split('@')[0] + ('@%d' % (len(doc) // 2) if '@' in exp else '')}")
         for t_ in ("-", "61", "616263", "c3a9e282ac", "78" * 24):
             out.append(f"dextra CowS {t_} 7")
         # a three-state type whose nil value (K) is not what its decoder makes of `null` (C): a written `null` belongs to the type's decoder
@@ -111,6 +125,8 @@ def judge(op, impl, model, spec):
         return "ok" if iw[2][4:] == dd[0] else "violation"
     nbytes = 0 if iw[0] == "-" else len(iw[0]) // 2
     want = ",".join(w[2:]) if w[1] not in ("CowA", "CowS") else f"{w[2]},{w[3]}"
+    if w[1] in ("MixBN", "MixE"):
+        want = ",".join(w[2:])
     if iw[2][4:] != want or int(iw[3][4:]) != nbytes or int(iw[1][4:]) != nbytes:
         return "violation"
     return "ok"
